@@ -290,11 +290,21 @@ def solver_sub(rows, cols, entries, part, nparts, stride):
   w = world.load()
   lin = w.linalg_util
   r = Result()
-  idx = 0
-  for flat in itertools.product(entries, repeat=(rows - 1) * cols):
-    idx += 1
-    if idx % nparts != part or (idx // nparts) % stride:
+  nfree = (rows - 1) * cols
+  base = len(entries)
+  total = base**nfree
+  # the idx-th tuple of itertools.product(entries, repeat=nfree), 1-based, decoded directly
+  # (iterating the whole product and filtering is hopeless for 2^35 tuples)
+  for q in range(0, total // nparts + 1, stride):
+    idx = q * nparts + part
+    if idx < 1 or idx > total:
       continue
+    v = idx - 1
+    digits = []
+    for _ in range(nfree):
+      v, d = divmod(v, base)
+      digits.append(entries[d])
+    flat = tuple(reversed(digits))
     free = [flat[i * cols:(i + 1) * cols] for i in range(rows - 1)]
     for pos in range(rows):
       for kind in ('zero', 'dup', 'double', 'sum'):
